@@ -72,9 +72,7 @@ Definition lits_client_Conn_Cap : list lit :=
    LStr [32; 58]%N;
    LInt (450)].
 Definition lits_client_Conn_Close : list lit :=
-  [LStr [105; 114; 99; 46; 67; 108; 111; 115; 101; 40; 41; 58; 32; 68; 105; 115; 99; 111; 110; 110; 101; 99; 116; 101; 100; 32; 102; 114; 111; 109; 32; 115; 101; 114; 118; 101; 114; 46]%N;
-   LBool false;
-   LStr [68; 73; 83; 67; 79; 78; 78; 69; 67; 84; 69; 68]%N].
+  [].
 Definition lits_client_Conn_Config : list lit :=
   [].
 Definition lits_client_Conn_Connect : list lit :=
@@ -204,6 +202,12 @@ Definition lits_client_Conn_addIntHandlers : list lit :=
   [].
 Definition lits_client_Conn_addSTHandlers : list lit :=
   [].
+Definition lits_client_Conn_closeIf : list lit :=
+  [LStr [105; 114; 99; 46; 67; 108; 111; 115; 101; 40; 41; 58; 32; 68; 105; 115; 99; 111; 110; 110; 101; 99; 116; 101; 100; 32; 102; 114; 111; 109; 32; 115; 101; 114; 118; 101; 114; 46]%N;
+   LBool false;
+   LBool false;
+   LBool true;
+   LStr [68; 73; 83; 67; 79; 78; 78; 69; 67; 84; 69; 68]%N].
 Definition lits_client_Conn_delSTHandlers : list lit :=
   [LInt (0)].
 Definition lits_client_Conn_dialProxy : list lit :=
@@ -477,6 +481,10 @@ Definition lits_client_Line_Public : list lit :=
   [LStr [80; 82; 73; 86; 77; 83; 71]%N;
    LStr [78; 79; 84; 73; 67; 69]%N;
    LStr [65; 67; 84; 73; 79; 78]%N;
+   LInt (1);
+   LInt (0);
+   LStr []%N;
+   LBool false;
    LInt (0);
    LInt (0);
    LInt (35);
@@ -486,6 +494,10 @@ Definition lits_client_Line_Public : list lit :=
    LBool true;
    LStr [67; 84; 67; 80]%N;
    LStr [67; 84; 67; 80; 82; 69; 80; 76; 89]%N;
+   LInt (2);
+   LInt (1);
+   LStr []%N;
+   LBool false;
    LInt (1);
    LInt (0);
    LInt (35);
@@ -547,6 +559,7 @@ Definition lits_client_ParseLine : list lit :=
    LStr []%N;
    LInt (0);
    LInt (1);
+   LStr []%N;
    LInt (0);
    LInt (58);
    LStr [32]%N;
@@ -555,15 +568,16 @@ Definition lits_client_ParseLine : list lit :=
    LInt (1);
    LStr [32; 58]%N;
    LInt (2);
-   LInt (1);
+   LInt (0);
    LInt (0);
    LInt (1);
-   LInt (0);
+   LInt (1);
    LInt (0);
    LInt (1);
    LInt (1);
    LStr [80; 82; 73; 86; 77; 83; 71]%N;
    LStr [78; 79; 84; 73; 67; 69]%N;
+   LInt (1);
    LInt (1);
    LInt (2);
    LInt (1);
